@@ -76,6 +76,7 @@ func init() {
 			rulePointerWrapper(c)
 			ruleMapSlotMerge(c)
 			ruleWalkerLookup(c)
+			ruleOverlayKey(c)
 			ruleRejects(c, B, nil)
 			ruleFieldNameUse(c)
 			ruleAnyOrder(c, B)
